@@ -54,6 +54,7 @@ func main() {
 		klogFlags.Set("alsologtostderr", "false")
 		klogFlags.Set("stderrthreshold", "FATAL")
 		klog.SetOutput(ioutil.Discard)
+		klog.SetOutputBySeverity("FATAL", os.Stderr) // a klog.Fatal ends the process: its message is the witness
 		harness.ScratchRoot = *scratch
 		em, err := harness.NewEmitter(*out)
 		if err != nil {
